@@ -387,7 +387,7 @@ Strengthening (batch axis made precise; see DetCfg!Projections, FileKinds, gen/d
  canon, globals ...) of every file after a `prag' file.
  New findings on the unchanged tree that the broad key had hidden (all reproduced by hand, recorded with specific keys):
   - genc.c gcvNBInts / gcvNRRFmt never reset: GB<n>/GA<n> names of the 2nd+ file continue the numbering (-Q3; c:decls, c:canon;
-    sig bigint-number; hooks/candidate-C08-bigint-counter-reset.diff removes it);
+    sig bigint-number; hooks/fix-C08-bigint-counter-reset.diff removes it);
   - stab.c stabSerialNoCounter not reset per file: type codes in the syme section of the .ao differ, also for library-free files and
     the same file twice (sig syme-codes; hooks/candidate-C08-stab-serial-per-file.diff removes the triv1 case, one byte still differs
     for a file that follows a file with errors -- not traced);
